@@ -536,7 +536,9 @@ func runScenario(base string, sc scenario, bin string) (res scenResult) {
 	res.Owed = len(owed)
 	res.NotOwed = sc.NMsgs - len(owed)
 	if owedByStats != len(drained) {
-		res.Notes = append(res.Notes, fmt.Sprintf("stats said %d owed (%+v), drained %d deliveries of %d messages", owedByStats, cc, len(drained), len(owed)))
+		cc2, _ := channelCounts(n, topicName, channel)
+		res.Notes = append(res.Notes, fmt.Sprintf("stats said %d owed (%+v), drained %d deliveries of %d messages; afterwards %+v; stop=%s restart=%s exit=%d",
+			owedByStats, cc, len(drained), len(owed), cc2, sc.Stop, sc.Restart, res.ExitCode))
 	}
 
 	// ---- inspection of the directories (independent of the syscall log)
@@ -665,6 +667,15 @@ func runScenario(base string, sc scenario, bin string) (res scenResult) {
 	finned := map[int]bool{}
 	for _, t := range model.finOrder {
 		finned[t] = true
+	}
+	if owedByStats != len(drained) {
+		var both []int
+		for i := 1; i <= sc.NMsgs; i++ {
+			if owed[i] && finned[i] {
+				both = append(both, i)
+			}
+		}
+		res.Notes = append(res.Notes, fmt.Sprintf("drained although a FIN for them is in the syscall log: %v (of %d)", both, sc.NMsgs))
 	}
 	for i := 1; i <= sc.NMsgs; i++ {
 		if !owed[i] && !finned[i] {
